@@ -206,4 +206,24 @@ DUP_Forms == <<F4("p", "row1", "p_dup", "row2"), F4("p_dup", "A1", "p", "all"), 
 DUP_Remove == <<RC("p_dup", "row1", "W"), RC("p", "plate", "liquid")>>
 DUP_Fill == <<FC("p_dup", "col2", "W", "L"), FC("p", "row1", "W", "L")>>
 
+
+(***************************************************************************)
+(* LOT: two lots of one enzyme (same name, different specific activity).   *)
+(* Substance equality ignores the specific activity, so anything cached    *)
+(* per Substance is shared between the lots; mass-based requests must not. *)
+(***************************************************************************)
+SubstLot == {"W", "E", "F"}
+C3(w, e, f) == [W |-> w, E |-> e, F |-> f]
+LOT_Names == {"e1", "f1", "d", "d2", "o"}        \* (the lots are never mixed: in a container they would share one key)
+LOT_Shape == [n \in LOT_Names |-> <<0, 0>>]
+LOT_Init == {[e1 |-> Cont(Inf, C3(I(4), I(2), Zero)), f1 |-> Cont(Inf, C3(I(4), Zero, I(2))),
+              d |-> Cont(Inf, C3(Zero, Zero, Zero)), d2 |-> Cont(Inf, C3(Zero, Zero, Zero)),
+              o |-> Cont(Inf, C3(Zero, Zero, Zero))]}
+LOT_Forms == <<F4("e1", "-", "d", "-"), F4("f1", "-", "d2", "-")>>
+LOT_Fracs == {R(1, 2), One}
+LOT_Sol == {SC(<<s>>, "W", <<One>>, I(6), given, <<nu>>, <<du>>, <<qu>>, tu) :
+              s \in {"E", "F"}, given \in {"cq", "ct", "qt"}, nu \in {"U", "g"}, du \in {"g", "L"}, qu \in {"g", "U"}, tu \in {"g", "L"}}
+LOT_Fill == <<FC("e1", "-", "E", "g"), FC("f1", "-", "F", "g")>>
+LOT_FillDeltas == {One}
+
 =============================================================================
